@@ -177,3 +177,30 @@ def targeted():
             sc("%s-competing-%s" % (kind, name), [{"op": "block", "txs": [vote(kind, v, w) for v, w in order]}, {"op": "skip", "n": 2},
                                                     {"op": "block", "txs": [{"id": "s1", "type": "Send", "from": "a1", "args": {"coin": "BIP", "to": "a2", "value": "1u"}}]}, {"op": "skip", "n": 2}])
     return S
+
+
+def crowd(rnd, n):
+    """world W4: candidate v1 has all 1000 slots taken (smallest stake 2000 BIP); CRRHUN is worth 2 BIP per unit; period 3"""
+    out = []
+    shapes = [("CRRHUN", "900u"), ("CRRHUN", "999u"), ("CRRHUN", "1000u"), ("CRRHUN", "1001u"), ("CRRHUN", "1500u"), ("CRRHUN", "3000u"),
+              ("BIP", "1999u"), ("BIP", "2000u"), ("BIP", "2001u"), ("BIP", "5000u"), ("BIP", "100u")]
+    for k in range(n):
+        steps = []
+        txs = []
+        tid = 0
+        for a in rnd.sample(["a1", "a2", "a3", "a4"], rnd.randint(1, 3)):
+            c, v = rnd.choice(shapes)
+            tid += 1
+            txs.append({"id": "t%d" % tid, "type": "Delegate", "from": a, "args": {"pub": "v1", "coin": c, "value": v}})
+        if rnd.random() < 0.3:
+            tid += 1
+            txs.append({"id": "t%d" % tid, "type": "Unbond", "from": "d%d" % rnd.choice([5, 1000]), "args": {"pub": "v1", "coin": "BIP", "value": rnd.choice(["3000u", "2000u", "10u"])}})
+        steps.append({"op": "skip", "n": rnd.randint(0, 2)})
+        steps.append({"op": "block", "txs": txs})
+        steps.append({"op": "skip", "n": 4})
+        if rnd.random() < 0.5:
+            tid += 1
+            steps.append({"op": "block", "txs": [{"id": "t%d" % tid, "type": "Delegate", "from": "a1", "args": {"pub": "v1", "coin": rnd.choice(["BIP", "CRRHUN"]), "value": rnd.choice(["2500u", "1100u"])}}]})
+            steps.append({"op": "skip", "n": 3})
+        out.append({"id": "CR%d" % k, "world": "W4", "family": "staking", "steps": steps})
+    return out
